@@ -184,6 +184,20 @@ CLAIMED["C07"] = dict(
          "shaped siblings open). Nest-deeper edits are not generated. Two output channels throughout.",
     technique="TLA+ model of edit histories over a definitional evaluator, checked with TLC; histories replayed on VM and WASM",
 )
+CLAIMED["C16"] = dict(
+    category="model_checking",
+    text="Lang.tla defines consistent renaming of user-chosen identifiers (RenameProg); MCRename.tla checks with TLC that the "
+         "specification's output stream of every LangGen program of the budget is invariant under it. Every program is then "
+         "transformed at the source level - renamed from an adversarial pool (names resembling those the compiler mints itself, "
+         "long and non-ASCII names), wrapped in redundant parentheses, re-laid out with comments and line breaks inside brackets, "
+         "annotated with the types it has anyway - and the transformed program runs next to the original on both back ends; "
+         "Lockstep.tla validates that accept/reject and every output sample agree.",
+    design_ref="DESIGN.md §6 C16",
+    note="Names are never keywords or builtins. Two names are pinned findings and not in the pool (a parameter named feed_id0 in a "
+         "function that uses self; a function named _mimium_global). Annotations are limited to float, (float,float) and "
+         "(float)->float, the types of the core fragment.",
+    technique="TLA+ renaming invariance checked with TLC; source-level transformations replayed next to the original with lock-step trace validation",
+)
 NOT_YET = {}
 
 checks = []
